@@ -22,6 +22,8 @@ from .. import c19_u_select  # noqa: F401
 from .. import c19_u_sort  # noqa: F401
 from .. import c19_u_string  # noqa: F401
 from ..c19_run import UNITS
+from ..c19_u_history import HISTORY_UNIT
+from ..c19_u_history import History
 from ..c19_run import Runner
 from ..core import Ctx
 
@@ -47,6 +49,11 @@ ASSUMPTIONS = [
     "underscores, any magnitude; floats also .5, 5. and exponent forms) are required to behave "
     "exactly like the number they denote (unit numstr); non-ASCII digits and exotic white space "
     "are not generated",
+    "history independence: every shard evaluates a fixed panel (>= 200 high-precision arithmetic "
+    "applications plus time-zone / locale / cache sensitive ones) in the fresh worker, after "
+    "applying every registered filter to typical inputs, and after its own cases; decimal "
+    "context, C locale and time zone are compared around every priming call (if priming changed "
+    "them they are reported, then restored so the unit's own laws are not failed wholesale)",
     "a TypeError raised by a filter on the registry path is treated like the LiquidTypeError "
     "the renderer's dispatch turns it into",
     "float results are accepted within 2**-50 relative error of the exact decimal result",
@@ -94,6 +101,9 @@ def floors(tier: str) -> dict[str, int]:
         "template_vs_registry": 50_000 * k,
         "lambda_form_comparisons": 5_000 * k,
         "string_vs_number_comparisons": 20_000 * k,
+        "history_panel_comparisons": 4_000,
+        "priming_calls_state_checked": 1_000,
+        "set:primed_filters": 70,
     }
 
 
@@ -103,6 +113,10 @@ def run_shard(spec: dict[str, Any], ctx: Ctx) -> None:
     rng = random.Random(f"{spec['seed']}:{uname}:{spec['i']}")
     R = Runner(ctx)
     quota = QUOTA if spec["tier"] == "quick" else QUOTA * 20 // max(1, spec["n"])
+    # history independence: panel in the fresh worker, priming sequence over every
+    # registered filter (process state checked after each call), panel again
+    hist = History(R)
+    hist.start()
     try:
         for i in range(spec["cases"]):
             inp = gen(rng, i)
@@ -111,6 +125,7 @@ def run_shard(spec: dict[str, Any], ctx: Ctx) -> None:
             if i % 500 == 0:
                 ctx.sample({"unit": uname, "inp": inp})
                 ctx.check_deadline()
+        hist.finish()
     finally:
         for f in filters:
             if ctx.counters.get(f"law:{f}", 0) >= quota:
@@ -121,6 +136,16 @@ def run_shard(spec: dict[str, Any], ctx: Ctx) -> None:
 def replay(wit: dict[str, Any], ctx: Ctx) -> None:
     uname = wit["unit"]
     R = Runner(ctx)
+    if uname == HISTORY_UNIT:
+        print("replay C19: history independence (fresh panel, priming sequence, panel again)")
+        h = History(R)
+        h.start()
+        h.finish()
+        for v in ctx.violations.values():
+            print(f"  {v['key']}: {v['what']}")
+        if not ctx.violations:
+            print("  panel results and process state unchanged by the priming sequence")
+        return
     inp = wit["inp"]
     fails = R.run_case(uname, inp)
     print(f"replay C19: unit={uname} inp={inp!r}")
